@@ -88,6 +88,21 @@ def padding_switch(ctx, cq):
     ctx.floor("feasible hybrid paths of %s.assemble" % cls.name, 2, n)
 
 
+def fresh_keywords(ctx, cq):
+    """The keyword dictionary that carries the pad switch belongs to the instance (a fresh literal), it is not shared."""
+    cls = ctx.prog.cls(cq)
+    init = cls.methods.get("__init__")
+    st = [n for n in own_nodes(init.node) if isinstance(n, ast.Assign) and len(n.targets) == 1 and norm(n.targets[0]) == "self.kws"]
+    if not st:
+        ctx.undecided("C03.4", init, "assignment of self.kws not found")
+        return
+    for a in st:
+        fresh = isinstance(a.value, ast.Dict) or (isinstance(a.value, ast.Call) and norm(a.value.func) in ("dict",)) or \
+            (isinstance(a.value, ast.Call) and isinstance(a.value.func, ast.Attribute) and a.value.func.attr == "copy")
+        ctx.decide("C03.4", init, fresh, "%s: the hasher keywords (carrying the pad switch) are a dictionary created for this instance" % cls.name,
+                   "%s: self.kws is bound to %s, an object shared between instances: the pad switch a single-file torrent turns off stays off for a later multi-file hybrid in the same process" % (cls.name, norm(a.value)), a)
+
+
 def run(ctx):
     ctx.trust("SHA-1 equality of the stream is NOT decided; hashlib")
     for cq in ("torrentfile.torrent:TorrentFileHybrid", "torrentfile.torrent:TorrentAssembler"):
@@ -98,6 +113,7 @@ def run(ctx):
         HF.judge_facts(ctx, "C03.2", cname + "._traverse", EF, {"padding.entry": CF.SPEC_HYBRID_ENTRIES["padding.entry"]}, why="the hybrid layout")
         HF.judge_facts(ctx, "C03.1", cname + "._traverse", F, {"dir.order": CF.SPEC_TRAVERSE["dir.order"], "leaf": CF.SPEC_TRAVERSE["leaf"]}, why="the hybrid layout")
         padding_switch(ctx, cq)
+        fresh_keywords(ctx, cq)
     for hq in ("torrentfile.hasher:HasherHybrid", "torrentfile.hasher:FileHasher"):
         cls = ctx.prog.cls(hq)
         H, _ = HF.v2_facts(ctx, cls)
